@@ -19,7 +19,7 @@ def specKeys (getset : Bool) (tc : TagCase) (doc : Option (Bool × Bool)) (promG
   (leavesTop t).filterMap (fun l =>
     if goShadowed t l.depth l.info.name then none
     else
-      let tag := if l.top ∧ l.info.jsonTag ≠ "" then l.info.jsonTag else trans tc l.info.name
+      let tag := if l.info.jsonTag ≠ "" then l.info.jsonTag else trans tc l.info.name
       -- "one key per exported field": also for an exported field that is left out of generation (`new:"-"`)
       if l.info.skip then
         (if isExportedName l.info.name then some ⟨tag, l.info.name, true, false, false, false, false⟩ else none)
